@@ -514,6 +514,18 @@ theorem default_env_rejects (ts : List Tok) :
 theorem tokens_strictly_consumed (fl : Flags) (p : Nat) (ts : List Tok) (e : E) (r : List Tok)
     (h : parsePrim fl p ts = some (e, r)) : r.length < ts.length := parsePrim_consumes h
 
+/-- **Conditions combine by truthiness.**  `and`, `or`, `not` look only at whether their operands are truthy
+    (`is_truthy`, so only nil/false/undefined count as false), left to right, and skip the right operand when
+    the left one decides — an error in a skipped operand is not raised. -/
+theorem eval_connectives (env : Nat → Val) (hs : Nat → String) (l r : E) :
+    evalCond env hs (.and l r) = (evalCond env hs l).bind (fun a => if a then evalCond env hs r else .ok false) ∧
+    evalCond env hs (.or l r) = (evalCond env hs l).bind (fun a => if a then .ok true else evalCond env hs r) ∧
+    evalCond env hs (.not l) = (evalCond env hs l).bind (fun a => .ok (!a)) := by
+  have hb : ∀ b : Bool, isTruthy (.bool b) = b := by intro b; cases b <;> rfl
+  refine ⟨?_, ?_, ?_⟩ <;> simp only [evalCond, evalE] <;> cases evalE env hs l <;> simp [Res.bind] <;>
+    (try (rename_i a; cases isTruthy a <;> simp [hb] <;> cases evalE env hs r <;> simp [hb]))
+  all_goals simp [hb]
+
 /-! ### non-vacuity: the documentation's own example and a grouped one -/
 
 /-- `true and false and false or true` is `(true and (false and (false or true)))` (docs/tag_reference.md) -/
